@@ -161,7 +161,7 @@ class OvfProfile(StoreProfile):
     name = "ovf"
     level = "fault_enumeration"
     fmt = "ovf"
-    required_probes = ("cut_in_data", "cut_in_check", "cut_in_header", "cut_in_tail", "multi_chunk_write", "path_reuse", "stale_sidecar_candidate", "foreign_ovf", "sweep_done", "recovery_read")
+    required_probes = ("cut_in_data", "cut_in_check", "cut_in_header", "cut_in_tail", "multi_chunk_write", "path_reuse", "stale_sidecar_candidate", "foreign_ovf", "sweep_done", "recovery_read", "rejected_write_over_existing_with_subregions")
     rule = (
         "one case = one seeded store history (3-30 ops) of OVF writers (bin8/bin4/txt, extend_scalar, side-car on/off) and readers, "
         "foreign OVF 1.0/2.0 writers, an independent OVF 2.0 parser, and faults (torn write at byte c, lost tail, damaged check "
@@ -192,7 +192,7 @@ class OvfProfile(StoreProfile):
         cfg = st.cfg
         out = st.next_slot
         names = [f"p{i}.{ext}" for i, ext in zip(range(cfg["npaths"]), ["omf", "ovf", "ohf", "omf"])]
-        if not st.f or (len(st.f) < cfg["nfields"] and rng.random() < 0.3):
+        if not [s for s, (_, f) in st.f.items() if f.mesh.region.ndim == 3 and len(set(f.mesh.region.units)) == 1] or (len(st.f) < cfg["nfields"] and rng.random() < 0.3):
             big = cfg["large"] and not st.f
             o = self.draw_field(rng, st, out, 3, 216, cfg["max_subs"], True, cfg["reps"], bc_any=True)
             if big:
@@ -209,8 +209,22 @@ class OvfProfile(StoreProfile):
             if small:
                 st.mark_done("sweep")
                 return {"op": "sweep", "src": rng.choice(small), "rep": rng.choice(["bin8", "bin4"]), "opts": {"extend_scalar": True} if rng.random() < 0.2 else {}, "fault": "sweep"}
-        if r < 0.38 or not paths:
-            src = rng.choice(sorted(st.f))
+        odd = [s for s, (_, f) in st.f.items() if f.mesh.region.ndim != 3 or len(set(f.mesh.region.units)) != 1]
+        if paths and r < 0.07:
+            if not odd and len(st.f) < 4:
+                ndim = rng.choice([2, 3, 3])
+                o = self.draw_field(rng, st, out, ndim, 60, cfg["max_subs"], ndim != 3, cfg["reps"])
+                if ndim == 3:
+                    o["mesh"]["units"] = ["nm", "nm", "m"]
+                o["value"] = {"kind": "idx"}
+                return o
+            why = rng.choice(["ndim", "units", "rep"])
+            src = rng.choice(odd) if odd and why != "rep" else rng.choice(sorted(st.f))
+            withsubs = [p for p in paths if st.paths[p].subs]
+            return {"op": "write_rejected", "src": src, "path": rng.choice(withsubs or paths), "fmt": "ovf", "rep": rng.choice(cfg["reps"]), "why": why, "fault": "rejected_write"}
+        good = [s for s in sorted(st.f) if s not in odd]
+        if (r < 0.38 or not paths) and good:
+            src = rng.choice(good)
             rel = rng.choice(names)
             rep = rng.choice(cfg["reps"])
             fsh = st.f[src][1]
@@ -308,7 +322,7 @@ class Hdf5Profile(StoreProfile):
     prop = "C10"
     name = "hdf5"
     fmt = "hdf5"
-    required_probes = ("path_reuse", "foreign_hdf5-legacy", "recovery_read", "intcorner_floatsubs")
+    required_probes = ("path_reuse", "foreign_hdf5-legacy", "recovery_read", "intcorner_floatsubs", "stale_sidecar_next_to_hdf5")
     rule = (
         "one case = one seeded store history (3-20 ops) of HDF5 writes and reads of 1-4-d fields (arbitrary dims/units/tolerance/"
         "bc/subregions, int- or float-typed corners crossed with int- or float-typed subregion corners, labels and unit present or "
@@ -368,7 +382,12 @@ class Hdf5Profile(StoreProfile):
             return {"op": "write", "src": rng.choice(sorted(st.f)), "path": rng.choice(names), "fmt": "hdf5", "rep": None, "opts": {}}
         if r < 0.65:
             return {"op": "read", "path": rng.choice(paths)}
+        if r < 0.76:
+            return {"op": "h5_view", "path": rng.choice(paths)}
         if r < 0.8:
+            withsubs = [s for s, (_, f) in st.f.items() if f.mesh.subs]
+            if withsubs:
+                return {"op": "plant_sidecar", "src": rng.choice(withsubs), "path": rng.choice(paths), "fault": "stale_sidecar"}
             return {"op": "h5_view", "path": rng.choice(paths)}
         if r < 0.86 and cfg["foreign"]:
             geo = Geo(cfg["family"])
@@ -397,7 +416,7 @@ class VtkProfile(StoreProfile):
     prop = "C16"
     name = "vtk"
     fmt = "vtk"
-    required_probes = ("path_reuse", "foreign_vtk-legacy", "recovery_read", "stale_sidecar_candidate")
+    required_probes = ("path_reuse", "foreign_vtk-legacy", "recovery_read", "stale_sidecar_candidate", "rejected_write_over_existing_with_subregions")
     rule = (
         "one case = one seeded store history (3-20 ops) of VTK writes (bin/txt/xml, side-car on/off) and reads of 3-d fields, an "
         "independent VTK consumer that looks every cell up by position (FindCell) on the in-memory grid and on the written file, "
@@ -423,19 +442,30 @@ class VtkProfile(StoreProfile):
         out = st.next_slot
         names = [f"p{i}.vtk" for i in range(cfg["npaths"])]
         paths = sorted(st.paths)
-        if not st.f or (len(st.f) < cfg["nfields"] and rng.random() < 0.35):
+        if not [s for s, (_, f) in st.f.items() if f.mesh.region.ndim == 3] or (len(st.f) < cfg["nfields"] and rng.random() < 0.35):
             o = self.draw_field(rng, st, out, 3, 150, cfg["max_subs"], False, cfg["reps"])
             o["value"] = {"kind": "idx", "step": rng.choice([1.0, 0.5, -2.0])} if rng.random() < 0.6 else {"kind": "wide", "seed": rng.randrange(2**31), "emax": 100, "specials": []}
             o["valid"] = {"kind": "mask", "seed": rng.randrange(2**31), "p": rng.choice([0.2, 0.7])} if rng.random() < 0.7 else None
             o["unit"] = None  # not promised by C16
             return o
         r = rng.random()
-        if r < 0.35 or not paths:
+        odd = [s for s, (_, f) in st.f.items() if f.mesh.region.ndim != 3]
+        if paths and r < 0.07:
+            if not odd and len(st.f) < 4:
+                o = self.draw_field(rng, st, out, rng.choice([1, 2, 2]), 60, cfg["max_subs"], False, cfg["reps"])
+                o["value"], o["unit"] = {"kind": "idx"}, None
+                return o
+            why = rng.choice(["ndim", "ndim", "rep"])
+            src = rng.choice(odd) if odd and why == "ndim" else rng.choice(sorted(st.f))
+            withsubs = [p for p in paths if st.paths[p].subs]
+            return {"op": "write_rejected", "src": src, "path": rng.choice(withsubs or paths), "fmt": "vtk", "rep": rng.choice(cfg["reps"]), "why": why, "fault": "rejected_write"}
+        good = [s for s in sorted(st.f) if s not in odd]
+        if (r < 0.35 or not paths) and good:
             rel = rng.choice(names)
             opts = {}
             if rng.random() < 0.15 and not st.fs.exists(_sidecar(rel)):
                 opts["save_subregions"] = False
-            return {"op": "write", "src": rng.choice(sorted(st.f)), "path": rel, "fmt": "vtk", "rep": rng.choice(cfg["reps"]), "opts": opts}
+            return {"op": "write", "src": rng.choice(good), "path": rel, "fmt": "vtk", "rep": rng.choice(cfg["reps"]), "opts": opts}
         if r < 0.55:
             return {"op": "read", "path": rng.choice(paths)}
         if r < 0.68:
